@@ -173,6 +173,27 @@ def main():
     body += "Definition installed_eps : list (pstr * pstr * pstr * pstr) := %s.\n" % L.lst(
         ["(%s, %s, %s, %s)" % tuple(L.pstr(x) for x in d) for d in inst], "pstr * pstr * pstr * pstr")
     write("Registry.v", body)
+
+    # ---- Published rules (pinned in /verif/spec, not in /repo) and documentation URLs
+    spec = json.load(open(os.path.join(os.path.dirname(os.path.abspath(__file__)), "..", "..", "spec", "published_rules.json")))
+    body = "Definition published : list (pstr * pstr * rank) := %s.\n" % L.lst(
+        ["(%s, %s, %s)" % (L.pstr(r["id"]), L.pstr(r["qualname"]), rank(r["severity"])) for r in spec["rules"]],
+        "pstr * pstr * rank")
+    write("Published.v", body)
+    import bandit
+    from bandit.core import docs_utils
+    all_ids = [p.plugin._test_id for p in man.plugins]
+    for rules in man.blacklist.values():
+        for b in rules:
+            if b["id"] not in all_ids:
+                all_ids.append(b["id"])
+    # NB: get_url rewrites the 'name' of blacklist rules in place; it is therefore called last
+    urls = [(i, docs_utils.get_url(i)) for i in all_ids]
+    body = "Definition doc_base : pstr := %s.\n" % L.pstr(docs_utils.get_url("no-such-id"))
+    body += "Definition doc_urls : list (pstr * pstr) := %s.\n" % L.lst([L.pair(L.pstr(a), L.pstr(b)) for a, b in urls], "pstr * pstr")
+    pages = sorted(os.listdir(os.path.join(REPO, "doc", "source", "plugins")))
+    body += "Definition doc_plugin_pages : list pstr := %s.\n" % L.lst([L.pstr(x) for x in pages], "pstr")
+    write("Docs.v", body)
     json.dump({"plugins": len(man.plugins)}, sys.stdout)
 
     # ---- Regexes
